@@ -10,6 +10,7 @@
   sufficient fuel (see `toksOf_lexLoop_eq_lexC`).
 -/
 import Pyab.Proofs.TriviaLexer
+import Pyab.Proofs.RuleTable
 import Pyab.Generated.LexRules
 namespace Pyab.Trivia
 open Pyab Pyab.Re
@@ -22,12 +23,14 @@ theorem S_state0 : S.states[0]? = some Generated.lexState0 := rfl
 theorem S_state1 : S.states[1]? = some Generated.lexState1 := rfl
 theorem S_tables : S.tables = T := rfl
 
-/-! ### 1. the rule tables, split at the trivia rules -/
+/-! ### 1. the trivia rules of the two tables, found by name -/
 
-/-- the 30 rules of state 0 that precede the comment / white-space rules -/
-def pre0 : List LexRule := Generated.lexState0.rules.take 30
-/-- the 32 rules of state 0 that precede `newline` and `ws` -/
-def pre2 : List LexRule := Generated.lexState0.rules.take 32
+/-- the rule table of lexer state 0 (ExperimentLexer) -/
+abbrev R0 : List LexRule := Generated.lexState0.rules
+/-- the rule table of lexer state 1 (BlockComment) -/
+abbrev R1 : List LexRule := Generated.lexState1.rules
+
+/-! the shapes the proofs below expect -/
 def bcs : LexRule := ⟨"BLOCK_COMMENT_START", (.seq (.lit 47) (.lit 42)), .push 1⟩
 def ic : LexRule :=
   ⟨"inline_comment", (.seq (.lit 47) (.seq (.lit 47) (.rep 0 none true .any))), .ignore⟩
@@ -37,9 +40,15 @@ def bce : LexRule :=
   ⟨"BLOCK_COMMENT_END", (.seq (.rep 0 none false .any) (.seq (.lit 42) (.lit 47))), .pop⟩
 def bcc : LexRule := ⟨"t_block_comment_content", (.rep 1 none true .any), .ignore⟩
 
-theorem rules0_eq : Generated.lexState0.rules = pre0 ++ [bcs, ic, nl, wsr] := rfl
-theorem rules0_eq2 : Generated.lexState0.rules = pre2 ++ [nl, wsr] := rfl
-theorem rules1_eq : Generated.lexState1.rules = [bce, bcc, nl] := rfl
+/-! **table obligations (a)**: the rule of each name, looked up in the actual table, has the
+    expected regex and action (position-free: `ruleNamed` scans the table) -/
+theorem bcs_found : ruleNamed "BLOCK_COMMENT_START" R0 = some bcs := by decide +kernel
+theorem ic_found : ruleNamed "inline_comment" R0 = some ic := by decide +kernel
+theorem nl_found : ruleNamed "newline" R0 = some nl := by decide +kernel
+theorem ws_found : ruleNamed "ws" R0 = some wsr := by decide +kernel
+theorem bce_found : ruleNamed "BLOCK_COMMENT_END" R1 = some bce := by decide +kernel
+theorem bcc_found : ruleNamed "t_block_comment_content" R1 = some bcc := by decide +kernel
+theorem nl1_found : ruleNamed "newline" R1 = some nl := by decide +kernel
 
 /-! ### 2. Python's `\s` as a finite list -/
 
@@ -106,25 +115,46 @@ theorem setSpace (c : Char) :
     (([SetItem.cat "space"].any (·.test T c.toNat)) != false) = isSpace c := by
   simp [SetItem.test, CharTables.isCat, isSpace, T, Generated.charTables]
 
-/-! ### 3. no earlier rule matches at a trivia start -/
+/-! ### 3. no earlier rule matches at a trivia start
 
-theorem space_blocked_all :
-    spaceChars.all (fun c => pre2.all (fun r => !firstOk T r.re c)) = true := by decide +kernel
+  **table obligations (b)**: decidable checks over the rules that actually precede a trivia
+  rule in the table (`rulesBefore`, found by scanning — no fixed count, no positions). -/
 
-theorem slash_blocked_all : pre0.all (fun r => !firstOk T r.re '/') = true := by decide +kernel
+/-- every rule tried before `newline` cannot start with a line break
+    (real order dependence: `ws` = `\s+` must come after `newline`) -/
+theorem nl_pre_ok :
+    (rulesBefore "newline" R0).all (fun r => !firstOk T r.re '\n') = true := by decide +kernel
 
-theorem space_blocked {c : Char} (h : isSpace c = true) (bound : Nat) (prev : Option Char)
-    (s : List Char) : ∀ r ∈ pre2, matchPrefix T bound r.re prev (c :: s) = none := by
-  intro r hr
-  have := List.all_eq_true.1 space_blocked_all c (isSpace_mem h)
-  have := List.all_eq_true.1 this r hr
-  exact matchPrefix_none_of_firstOk (by simpa using this)
+/-- every rule tried before `ws` cannot start with a white-space character, or is `\n+` -/
+theorem ws_pre_ok :
+    spaceChars.all (fun c =>
+      (rulesBefore "ws" R0).all (fun r => !firstOk T r.re c || r.re == nl.re)) = true := by
+  decide +kernel
 
-theorem slash_blocked (bound : Nat) (prev : Option Char) (s : List Char) :
-    ∀ r ∈ pre0, matchPrefix T bound r.re prev ('/' :: s) = none := by
-  intro r hr
-  have := List.all_eq_true.1 slash_blocked_all r hr
-  exact matchPrefix_none_of_firstOk (by simpa using this)
+/-- every rule tried before `/*` cannot start with `/`, or is `//.*` -/
+theorem bcs_pre_ok :
+    (rulesBefore "BLOCK_COMMENT_START" R0).all
+      (fun r => !firstOk T r.re '/' || r.re == ic.re) = true := by decide +kernel
+
+/-- every rule tried before `//.*` cannot start with `/`, or is `/\*` -/
+theorem ic_pre_ok :
+    (rulesBefore "inline_comment" R0).all
+      (fun r => !firstOk T r.re '/' || r.re == bcs.re) = true := by decide +kernel
+
+/-- state 1: before the end rule `.*?\*/` only `\n+` may be tried
+    (real order dependence: the content rule `.+` must come after it) -/
+theorem bce_pre_ok : (rulesBefore "BLOCK_COMMENT_END" R1).all (fun r => r.re == nl.re) = true := by
+  decide +kernel
+
+/-- state 1: before the content rule `.+` only the end rule and `\n+` may be tried -/
+theorem bcc_pre_ok :
+    (rulesBefore "t_block_comment_content" R1).all
+      (fun r => r.re == bce.re || r.re == nl.re) = true := by decide +kernel
+
+/-- state 1: before `\n+` only the end rule and the content rule may be tried -/
+theorem nl1_pre_ok :
+    (rulesBefore "newline" R1).all (fun r => r.re == bce.re || r.re == bcc.re) = true := by
+  decide +kernel
 
 /-! ### 4. what the trivia rules match -/
 
@@ -163,25 +193,42 @@ theorem ws_match {c : Char} (hc : isSpace c = true) (bound : Nat) (prev : Option
 
 /-! ### 5. A — white space in state 0 -/
 
+/-- no rule tried before `newline` matches at a line break -/
+theorem nl_blocked (bound : Nat) (prev : Option Char) (s : List Char) :
+    ∀ r ∈ rulesBefore "newline" R0, matchPrefix T bound r.re prev ('\n' :: s) = none := by
+  intro r hr
+  have := rulesBefore_all nl_pre_ok r hr
+  exact matchPrefix_none_of_firstOk (by simpa using this)
+
+/-- no rule tried before `ws` matches at a white-space character other than a line break -/
+theorem ws_blocked {c : Char} (hc : isSpace c = true) (hnl : c ≠ '\n') (bound : Nat)
+    (prev : Option Char) (s : List Char) :
+    ∀ r ∈ rulesBefore "ws" R0, matchPrefix T bound r.re prev (c :: s) = none := by
+  intro r hr
+  have := rulesBefore_all (List.all_eq_true.1 ws_pre_ok c (isSpace_mem hc)) r hr
+  rcases Bool.or_eq_true _ _ ▸ this with h | h
+  · exact matchPrefix_none_of_firstOk (by simpa using h)
+  · rw [beq_iff_eq.1 h]
+    exact nl_nomatch hnl bound prev s
+
 theorem space_H (bound : Nat) : ∀ c s, isSpace c = true → ∃ r n rest lexeme,
     firstMatch S.tables bound Generated.lexState0.rules none (c :: s) = some (r, n, rest) ∧
     r.action = .ignore ∧ c :: s = lexeme ++ rest ∧ lexeme.length = n ∧ lexeme ≠ [] ∧
     ∀ x ∈ lexeme, isSpace x = true := by
   intro c s hc
-  rw [S_tables, rules0_eq2, firstMatch_append_none (space_blocked hc bound none s)]
+  rw [S_tables]
   by_cases hnl : c = '\n'
   · subst hnl
     obtain ⟨l, rest, h1, h2, h3⟩ := nl_match bound none s
-    refine ⟨nl, _, rest, '\n' :: l, firstMatch_cons_some h1, rfl, by rw [h2]; rfl,
-      by simp [Nat.add_comm], by simp, ?_⟩
+    refine ⟨nl, _, rest, '\n' :: l, firstMatch_named nl_found (nl_blocked bound none s) h1, rfl,
+      by rw [h2]; rfl, by simp [Nat.add_comm], by simp, ?_⟩
     intro x hx
     rcases List.mem_cons.1 hx with rfl | hx
     · exact hc
     · rw [h3 x hx]; exact hc
   · obtain ⟨l, rest, h1, h2, h3⟩ := ws_match hc bound none s
-    rw [firstMatch_cons_none (nl_nomatch hnl bound none s)]
-    refine ⟨wsr, _, rest, c :: l, firstMatch_cons_some h1, rfl, by rw [h2]; rfl,
-      by simp [Nat.add_comm], by simp, ?_⟩
+    refine ⟨wsr, _, rest, c :: l, firstMatch_named ws_found (ws_blocked hc hnl bound none s) h1,
+      rfl, by rw [h2]; rfl, by simp [Nat.add_comm], by simp, ?_⟩
     intro x hx
     rcases List.mem_cons.1 hx with rfl | hx
     · exact hc
@@ -203,6 +250,17 @@ theorem bcs_nomatch_slash (bound : Nat) (prev : Option Char) (s : List Char) :
     matchPrefix T bound bcs.re prev ('/' :: '/' :: s) = none := by
   simp [matchPrefix, bcs, m]
 
+/-- no rule tried before `//.*` matches at `//` -/
+theorem ic_blocked (bound : Nat) (prev : Option Char) (s : List Char) :
+    ∀ r ∈ rulesBefore "inline_comment" R0,
+      matchPrefix T bound r.re prev ('/' :: '/' :: s) = none := by
+  intro r hr
+  have := rulesBefore_all ic_pre_ok r hr
+  rcases Bool.or_eq_true _ _ ▸ this with h | h
+  · exact matchPrefix_none_of_firstOk (by simpa using h)
+  · rw [beq_iff_eq.1 h]
+    exact bcs_nomatch_slash bound prev s
+
 /-- `//.*` swallows the rest of the line -/
 theorem ic_match (bound : Nat) (prev : Option Char) (body tail : List Char)
     (hb : ∀ x ∈ body, x ≠ '\n') (ht : LineEnd tail) (hbound : body.length ≤ bound) :
@@ -220,9 +278,9 @@ theorem lineComment_step (bound : Nat) (stack : List Nat) (body tail : List Char
     lexC S bound 0 stack ('/' :: '/' :: (body ++ tail)) = lexC S bound 0 stack tail := by
   have hfm : firstMatch S.tables bound Generated.lexState0.rules none ('/' :: '/' :: (body ++ tail)) =
       some (ic, 2 + body.length, tail) := by
-    rw [S_tables, rules0_eq, firstMatch_append_none (slash_blocked bound none _),
-      firstMatch_cons_none (bcs_nomatch_slash bound none _),
-      firstMatch_cons_some (ic_match bound none body tail hb ht hbound)]
+    rw [S_tables]
+    exact firstMatch_named ic_found (ic_blocked bound none _)
+      (ic_match bound none body tail hb ht hbound)
   exact lexC_step_ignore S_prevFree S_state0 hfm (by omega) rfl
 
 /-- **B**: a line comment together with its terminating newline is invisible -/
@@ -373,9 +431,14 @@ theorem nl1_H (bound : Nat) : ∀ c s, c = '\n' → ∃ r n rest lexeme,
       | cons _ _ => cases a <;> simp at hab
     subst hb
     exact close_fail_nl bound q _ _ _
-  rw [S_tables, rules1_eq, firstMatch_cons_none hmiss,
-    firstMatch_cons_none (bcc_nomatch_nl bound none s)]
-  refine ⟨nl, _, rest, '\n' :: l, firstMatch_cons_some h1, rfl, by rw [h2]; rfl,
+  have hpre : ∀ r ∈ rulesBefore "newline" R1, matchPrefix T bound r.re none ('\n' :: s) = none := by
+    intro r hr
+    have := rulesBefore_all nl1_pre_ok r hr
+    rcases Bool.or_eq_true _ _ ▸ this with h | h
+    · rw [beq_iff_eq.1 h]; exact hmiss
+    · rw [beq_iff_eq.1 h]; exact bcc_nomatch_nl bound none s
+  rw [S_tables]
+  refine ⟨nl, _, rest, '\n' :: l, firstMatch_named nl1_found hpre h1, rfl, by rw [h2]; rfl,
     by simp [Nat.add_comm], by simp, ?_⟩
   intro x hx
   rcases List.mem_cons.1 hx with rfl | hx
@@ -407,8 +470,17 @@ theorem blockComment_open (bound : Nat) (stack : List Nat) (w : List Char) :
     simp [matchPrefix, bcs, m]
   have hfm : firstMatch S.tables bound Generated.lexState0.rules none ('/' :: '*' :: w) =
       some (bcs, 2, w) := by
-    rw [S_tables, rules0_eq, firstMatch_append_none (slash_blocked bound none _),
-      firstMatch_cons_some hm]
+    have hic : matchPrefix T bound ic.re none ('/' :: '*' :: w) = none := by
+      simp [matchPrefix, ic, m]
+    have hpre : ∀ r ∈ rulesBefore "BLOCK_COMMENT_START" R0,
+        matchPrefix T bound r.re none ('/' :: '*' :: w) = none := by
+      intro r hr
+      have := rulesBefore_all bcs_pre_ok r hr
+      rcases Bool.or_eq_true _ _ ▸ this with h | h
+      · exact matchPrefix_none_of_firstOk (by simpa using h)
+      · rw [beq_iff_eq.1 h]; exact hic
+    rw [S_tables]
+    exact firstMatch_named bcs_found hpre hm
   exact lexC_step_push S_prevFree S_state0 hfm (by omega) rfl
 
 /-- inside the block-comment state: everything up to and including the first `*/` is skipped
@@ -430,9 +502,26 @@ theorem blockComment_inner (bound st0 : Nat) (stack : List Nat) (s : List Char) 
         | nil => exact absurd h hne
         | cons c cs => exact ⟨c, cs, rfl⟩
       rw [hcs] at hm ⊢
+      have hcnl : c ≠ '\n' := by
+        cases u with
+        | nil =>
+          simp only [List.nil_append, List.cons.injEq] at hcs
+          rw [← hcs.1]
+          decide
+        | cons x u' =>
+          simp only [List.cons_append, List.cons.injEq] at hcs
+          rw [← hcs.1]
+          exact hl x List.mem_cons_self
+      have hpre : ∀ r ∈ rulesBefore "BLOCK_COMMENT_END" R1,
+          matchPrefix T bound r.re none (c :: cs) = none := by
+        intro r hr
+        have := rulesBefore_all bce_pre_ok r hr
+        rw [beq_iff_eq.1 this]
+        exact nl_nomatch hcnl bound none cs
       have hfm : firstMatch S.tables bound Generated.lexState1.rules none (c :: cs) =
           some (bce, u.length + 2, s) := by
-        rw [S_tables, rules1_eq, firstMatch_cons_some hm]
+        rw [S_tables]
+        exact firstMatch_named bce_found hpre hm
       exact lexC_step_pop S_prevFree S_state1 hfm (by omega) rfl
     · subst hu
       cases line with
@@ -461,7 +550,16 @@ theorem blockComment_inner (bound st0 : Nat) (stack : List Nat) (s : List Char) 
         have hfm : firstMatch S.tables bound Generated.lexState1.rules none
             (x :: (l' ++ '\n' :: (u2 ++ '*' :: '/' :: s))) =
             some (bcc, (x :: l').length, '\n' :: (u2 ++ '*' :: '/' :: s)) := by
-          rw [S_tables, rules1_eq, firstMatch_cons_none hmiss, firstMatch_cons_some hcont]
+          have hxnl : x ≠ '\n' := hl x List.mem_cons_self
+          have hpre : ∀ r ∈ rulesBefore "t_block_comment_content" R1,
+              matchPrefix T bound r.re none (x :: (l' ++ '\n' :: (u2 ++ '*' :: '/' :: s))) = none := by
+            intro r hr
+            have := rulesBefore_all bcc_pre_ok r hr
+            rcases Bool.or_eq_true _ _ ▸ this with h | h
+            · rw [beq_iff_eq.1 h]; exact hmiss
+            · rw [beq_iff_eq.1 h]; exact nl_nomatch hxnl bound none _
+          rw [S_tables]
+          exact firstMatch_named bcc_found hpre hcont
         rw [lexC_step_ignore S_prevFree S_state1 hfm (by simp) rfl]
         have := blockComment_inner bound st0 stack s N ('\n' :: u2)
           (by simp at hN ⊢; omega) (noClose_suffix (x :: l') _ hc)
